@@ -39,7 +39,10 @@ Stat(ins, upd) == IF ins = 1 /\ upd = 0 THEN "ins" ELSE IF ins = 0 /\ upd = 1 TH
 PIns ==
     LET want == InsertOutcome(store, pool, "p", R.p)
         got == Stat(R.ins, R.upd) IN
-    IF R.err # 0 THEN Bad("pins:error,want=" \o want)
+    IF R.err # 0 THEN
+        (IF \E e \in store : FullIDCollision(pool[e.p], pool[R.p])
+           THEN Bad("pins:error,full-id-equals-that-of-another-stored-segment")
+           ELSE Bad("pins:error,want=" \o want))
     ELSE IF got # want THEN Bad("pins:stats=" \o got \o ",want=" \o want)
     ELSE /\ store' = PInsert(store, pool, R.p, R.type, Range(R.groups))
          /\ UNCHANGED <<nq, rl, failed>>
